@@ -205,6 +205,14 @@ def load (fixKeys fixAdmin : Bool) (t : Tree) : NState :=
 
 def reload (fixKeys fixAdmin : Bool) (s : NState) : NState := load fixKeys fixAdmin (serialize s)
 
+/-- `reload` with a third switch: `fixOrder` keeps the accounts in the order they had (the order is not
+part of the persisted data — `Persist` sorts by (Host, User) — but `GetUser` depends on it). -/
+def reloadWith (fixKeys fixAdmin fixOrder : Bool) (s : NState) : NState :=
+  let r := reload fixKeys fixAdmin s
+  if fixOrder then
+    { r with users := (s.users.filter (fun u => !u.isEphemeral)).map (fun u => loadUser fixKeys (serUser u)) }
+  else r
+
 /-! ## forgetting the names: the sets the decisions are taken on -/
 
 def eraseDb (d : NDb) : DbSet :=
@@ -241,6 +249,23 @@ def normalizePs (ps : PrivSet) : PrivSet :=
 def normalizeSt (st : St PrivSet) : St PrivSet :=
   { st with users := st.users.map (fun u => { u with privs := normalizePs u.privs }) }
 
+/-! ## `RemoveRoutine` on a set whose keys need not be lower-case
+
+`Gms.Priv.PrivSet.remRtn` (C39) models the final `delete(routines, routineKey{procName, isProc})` of
+`RemoveRoutine` for sets whose keys are all lower-case (there it can only hit when `procName` is
+lower-case). After a reload the keys are the stored names, so the `delete` under the name *as given* can
+hit a reloaded entry: this version drops that assumption. On sets with lower-case keys both agree
+(`remRtnRaw_eq` in Props/C41.lean). -/
+def remRtnRaw (ps : PrivSet) (d r : String) (isProc : Bool) (privs : List Priv) : PrivSet :=
+  let s := ps.dbOrNew d
+  let rp := premAll ((mget s.routines (lower r, isProc)).getD []) privs
+  let rs := mset s.routines (lower r, isProc) rp
+  let rs := if rp.isEmpty then merase rs (r, isProc) else rs
+  ps.setDb d { s with routines := rs }
+
+/-- The privilege-set algebra of the real code on arbitrary keys. -/
+def implRaw : PS PrivSet := { implPS with remRtn := remRtnRaw }
+
 /-! ## regions of the known defects -/
 
 /-- Some entry that carries privileges has a display name that is not its (lower-case) key. -/
@@ -253,5 +278,21 @@ def hasMixedCase (s : NState) : Bool :=
   s.users.any (fun u => !u.isEphemeral && u.privs.dbs.any NDb.mixedCase)
 
 def hasAdminEdge (s : NState) : Bool := s.edges.any (·.admin)
+
+/-- How many of the keys does `GetUser`'s loop accept for this user name and client host? -/
+def matchCount (keys : List (String × String)) (user host : String) (roleSearch : Bool) : Nat :=
+  (keys.filter (fun k => k.1 = user && hostMatches (normHost host) host k.2 roleSearch)).length
+
+/-- The account a session `user@host` runs as depends on the order of the accounts: the session is not the
+primary key of an account and the loop of `GetUser` accepts two or more accounts of that name (or none of
+that name and two or more anonymous ones). -/
+def ambiguous (keys : List (String × String)) (user host : String) (roleSearch : Bool) : Bool :=
+  !keys.any (fun k => k.2 = normHost host ∧ k.1 = user) &&
+    (matchCount keys user host roleSearch ≥ 2 ||
+      (matchCount keys user host roleSearch = 0 && matchCount keys "" host roleSearch ≥ 2))
+
+def hasAmbiguous (s : NState) (sessions : List (String × String)) : Bool :=
+  let keys := (s.users.filter (fun u => !u.isEphemeral)).map (fun u => (u.name, u.host))
+  sessions.any (fun w => ambiguous keys w.1 w.2 false)
 
 end Gms.PrivSerial
